@@ -351,7 +351,8 @@ KEY_STYLES = {
     "reserved": ["copy", "json", "fields", "schema", "validate", "construct", "self", "cls", "Config", "parse_obj", "dict_",
                  "update_forward_refs", "from_orm", "parse_raw", "schema_json"],
     "punct": ['a"b', "a'b", "a\\b", "a b", "a.b", "$ref", "@type", "#text", "a/b", "a:b", "a+b", "a[0]", "a{b}", "a\tb", "a\nb",
-              'x"""y', "x'''y", "a\\", "a\\\\b", "a%sb", "a{{b}}", "a{%b%}"],
+              'x"""y', "x'''y", "a\\", "a\\\\b", "a%sb", "a{{b}}", "a{%b%}",
+              "first\u2028second", "para\u2029graph", "next\u0085line", "form\x0cfeed", "vt\x0bab", "fs\x1csep", "cr\rlf"],
     "nonascii": ["données", "Ünï", "ключ", "Ключ", "λέξη", "straße", "naïve", "Բառ", "ßeta", "émigré", "ñandú", "ÇA", "œuvre",
                  "ключ_поля", "dataЖ", "Жdata", "x名前", "café_au_lait",
                  "cafe\u0301", "prix-cafe\u0301", "A\u030angstrom", "\u212aelvin", "\u2126hm", "nai\u0308ve", "e\u0301te\u0301"],
